@@ -117,10 +117,11 @@ def runStep (s : RunSt) (line : String) : RunSt × String :=
     | none => (s, "no-tree")
     | some pt =>
       if !s.onlyFix then (s, "unsupported") else
-      let (rem, grem) := getRemedies pt s.glob (pctDec m) (splitURL (pctDec url))
-      match rem ++ grem with
-      | [] => (s, "noop")
-      | first :: rest => (s, s!"early={first} n={rest.length + 1}")
+      let us := splitURL (pctDec url)
+      let (rem, grem) := getRemedies pt s.glob (pctDec m) us
+      match dispatchFirst pt s.glob (pctDec m) us with
+      | none => (s, "noop")
+      | some first => (s, s!"early={first} n={(rem ++ grem).length}")
   | _ => (s, "bad-op")
 
 /-! ### judge -/
@@ -210,6 +211,11 @@ def judgeStep (s : JudgeSt) (op out : String) : JudgeSt :=
       match parseAnswer (words out) with
       | some a => { s with cur := some { r with reqs := r.reqs ++ [⟨pctDec m, pctDec url, splitURL (pctDec url), a⟩] } }
       | none => { s with bad := some ("unparsable-output:" ++ pctEnc out) }
+  | ["disp", m, url] =>
+    match s.cur, kv (words out) "early" with
+    | some r, some first =>
+      { s with cur := some { r with disps := r.disps ++ [⟨pctDec m, pctDec url, splitURL (pctDec url), first⟩] } }
+    | _, _ => s
   | _ => s
 
 def judgeFinish (s : JudgeSt) : String :=
